@@ -12,7 +12,7 @@ from .vnet import HarnessError
 
 
 class LineExecution:
-    def __init__(self, bodies, files, prefix=(), wall=20.0):
+    def __init__(self, bodies, files, prefix=(), wall=20.0, repeat_cap=None):
         self.bodies = bodies
         self.files = tuple(files)
         self.prefix = list(prefix)
@@ -25,10 +25,20 @@ class LineExecution:
         self.points = []
         self.trace = []
         self.wall = wall
+        # repeat_cap=k: a thread offers a scheduling point at a given source line only the first k times it reaches it, so that a long
+        # loop contributes its first iterations (and every line after it) instead of thousands of equivalent points
+        self.repeat_cap = repeat_cap
+        self.seen = [dict() for _ in bodies]
 
     def _tracer_for(self, tid):
         def local(frame, event, arg):
             if event == 'line':
+                if self.repeat_cap is not None:
+                    k = (frame.f_code, frame.f_lineno)
+                    c = self.seen[tid].get(k, 0) + 1
+                    self.seen[tid][k] = c
+                    if c > self.repeat_cap:
+                        return local
                 self.trace.append((tid, frame.f_code.co_name, frame.f_lineno))
                 self.parked.release()
                 if not self.sem[tid].acquire(timeout=self.wall):
@@ -87,14 +97,14 @@ class LineExecution:
         return self.results, self.errors
 
 
-def explore(make_bodies, files, bound, check, max_execs=None):
+def explore(make_bodies, files, bound, check, max_execs=None, repeat_cap=None):
     """make_bodies() -> list of callables (fresh shared state per execution).  check(results, errors, trace) -> list of problems.
     Yields (prefix, problems, n_points)."""
     stack = [[]]
     n = 0
     while stack:
         prefix = stack.pop()
-        ex = LineExecution(make_bodies(), files, prefix)
+        ex = LineExecution(make_bodies(), files, prefix, repeat_cap=repeat_cap)
         results, errors = ex.run()
         n += 1
         yield prefix, check(results, errors, ex.trace), ex.points, ex.trace
